@@ -101,6 +101,8 @@ def _allowed(state, event, commack, system, user_commack):
             if commack == 0 and system == OUT_SYS:
                 return [COMM]
             return [WAIT_CRA, WAIT_DELAY]        # refused, or not the answer to the outstanding request
+        if state == WAIT_DELAY:
+            return [WAIT_DELAY, WAIT_CRA]        # E30 transition 8: any message other than S1F13 may end the delay (late S1F14 included)
         return [state]
     # inbound S1F13
     if state == COMM:
